@@ -37,7 +37,7 @@ def run(tier):
     _, out, _ = C.run_vh(["record", "opt", tp, "--seed", str(C.seed()), "--n", str(n), "--stmts", str(stmts)])
     meta = json.loads(out.strip().splitlines()[-1])
     rows = C.ndjson_read(tp)
-    stats, bad, states = S.judge_rows(rows, wd, "c02", chunks=8 if tier == "quick" else 16)
+    stats, bad, states = S.judge_rows(rows, wd, "c02", chunks=8 if tier == "quick" else 32)
     by = {r["id"]: r for r in rows}
     groups = collections.defaultdict(dict)
     for r in rows:
